@@ -154,8 +154,8 @@ func tokClasses(ts []token) string {
 
 // chunkViolation checks all required partitions of s; returns a description of
 // the first disagreement.
-func chunkViolation(r *core.Run, ti *terminfo.Terminfo, cs string, s []byte, rg *rand.Rand, nrand int) string {
-	whole, left, pan := decodeWhole(ti, cs, 100, 40, s)
+func chunkViolation(r *core.Run, d *decoder, s []byte, rg *rand.Rand, nrand int) string {
+	whole, left, pan := d.whole(s)
 	if pan != nil {
 		return fmt.Sprintf("panic decoding %q in one read: %v", s, pan)
 	}
@@ -163,7 +163,7 @@ func chunkViolation(r *core.Run, ti *terminfo.Terminfo, cs string, s []byte, rg 
 		return fmt.Sprintf("%d byte(s) still buffered after the escape timeout expired (input %q)", left, s)
 	}
 	try := func(parts [][]byte) string {
-		got, left, pan := decodeChunks(ti, cs, 100, 40, parts)
+		got, left, pan := d.chunks(parts)
 		r.Count("partitions", 1)
 		if pan != nil {
 			return fmt.Sprintf("panic decoding %q split as %q: %v", s, parts, pan)
@@ -213,12 +213,17 @@ func C02(r *core.Run) {
 	r.Rule = "for every database entry: seeded token strings (keys of the entry's table, SGR/X11 mouse reports, paste brackets, focus reports, OSC 52 replies, UTF-8 text, lone ESC, invalid bytes, sequence fragments) and random byte strings over a weighted alphabet, each decoded through the real collectEventsFromInput (verif hook) in one read and under partitions (all 2^(n-1) for n<=10, every single split point plus random multi-cuts otherwise), no expiry in between, expiry at the end; events must be identical and nothing may stay buffered. Framing: for strings of state-free tokens the one-read decoding must equal the concatenation of the per-token decodings. A sample is also driven through the real inputLoop/mainLoop pipeline. distinct = distinct (entry class, byte string)."
 	r.Assumptions = []string{"expire=false on every chunk models 'no escape timeout expiring in between'", "the synchronous hook runs the same collectEventsFromInput the main loop runs (validated by the pipeline sample)"}
 	entries := AllEntries()
-	perEntry := r.Pick(600, 20000)
+	perEntry := r.Pick(600, 40000)
 	nrandPart := r.Pick(12, 64)
 	core.Parallel(len(entries), func(ei int) {
 		ti := entries[ei]
 		for _, cs := range []string{"UTF-8", "ISO8859-1"} {
 			g := newTokGen(ti, cs)
+			d, err := newDecoder(ti, cs, 100, 40)
+			if err != nil {
+				r.Inconclusive(ti.Name + ": " + err.Error())
+				continue
+			}
 			n := perEntry
 			if cs != "UTF-8" {
 				n = perEntry / 6
@@ -230,18 +235,26 @@ func C02(r *core.Run) {
 				allOK := true
 				for k := 0; k < nt; k++ {
 					t, ok := g.gen(rg)
+					// a token that is a proper prefix of one of this entry's key
+					// sequences (rxvt: focus-out ESC [ O vs Ctrl-Up ESC [ O a) is
+					// ambiguous by the description itself: not framing-safe
+					for _, ks := range g.keys {
+						if len(ks) > len(t.b) && strings.HasPrefix(ks, string(t.b)) {
+							ok = false
+						}
+					}
 					ts = append(ts, t)
 					allOK = allOK && ok
 				}
 				s := joinTokens(ts)
 				r.Case(fmt.Sprintf("tok|%s|%s|%x", ti.Name, cs, s))
-				if v := chunkViolation(r, ti, cs, s, rg, nrandPart); v != "" {
+				if v := chunkViolation(r, d, s, rg, nrandPart); v != "" {
 					// shrink by dropping tokens
 					for changed := true; changed; {
 						changed = false
 						for k := 0; k < len(ts) && len(ts) > 1; k++ {
 							cand := append(append([]token{}, ts[:k]...), ts[k+1:]...)
-							if v2 := chunkViolation(r, ti, cs, joinTokens(cand), rg, nrandPart); v2 != "" {
+							if v2 := chunkViolation(r, d, joinTokens(cand), rg, nrandPart); v2 != "" {
 								ts, v, changed = cand, v2, true
 								k--
 							}
@@ -251,10 +264,10 @@ func C02(r *core.Run) {
 					continue
 				}
 				if allOK {
-					whole, _, _ := decodeWhole(ti, cs, 100, 40, s)
+					whole, _, _ := d.whole(s)
 					var exp []NEv
 					for _, t := range ts {
-						e, _, _ := decodeWhole(ti, cs, 100, 40, t.b)
+						e, _, _ := d.whole(t.b)
 						exp = append(exp, e...)
 					}
 					r.Count("framing_cases", 1)
@@ -263,10 +276,10 @@ func C02(r *core.Run) {
 							changed = false
 							for k := 0; k < len(ts) && len(ts) > 1; k++ {
 								cand := append(append([]token{}, ts[:k]...), ts[k+1:]...)
-								w2, _, _ := decodeWhole(ti, cs, 100, 40, joinTokens(cand))
+								w2, _, _ := d.whole(joinTokens(cand))
 								var e2 []NEv
 								for _, t := range cand {
-									e, _, _ := decodeWhole(ti, cs, 100, 40, t.b)
+									e, _, _ := d.whole(t.b)
 									e2 = append(e2, e...)
 								}
 								if !evsEq(w2, e2) {
@@ -300,13 +313,13 @@ func C02(r *core.Run) {
 					b[k] = al[rg.IntN(len(al))]
 				}
 				r.Case(fmt.Sprintf("rnd|%s|%s|%x", ti.Name, cs, b))
-				if v := chunkViolation(r, ti, cs, b, rg, nrandPart); v != "" {
+				if v := chunkViolation(r, d, b, rg, nrandPart); v != "" {
 					// shrink by dropping bytes
 					for changed := true; changed; {
 						changed = false
 						for k := 0; k < len(b) && len(b) > 1; k++ {
 							cand := append(append([]byte{}, b[:k]...), b[k+1:]...)
-							if v2 := chunkViolation(r, ti, cs, cand, rg, nrandPart); v2 != "" {
+							if v2 := chunkViolation(r, d, cand, rg, nrandPart); v2 != "" {
 								b, v, changed = cand, v2, true
 								k--
 							}
